@@ -101,9 +101,72 @@ def cbuild_case(calls, res):
     return "(%s, %s, %s)" % (clist([ccall(c) for c in calls]), ctable(res["urls"]), o)
 
 
+def cevent(ev, joined):
+    pdu, a, txadd, rssi, _hx = ev
+    return "{| ev_pdu := %s; ev_addr := %d; ev_txadd := %d; ev_rssi := %d; ev_data := %s |}" % (
+        pdu, a, txadd, rssi, cbytes(bytes.fromhex(joined)))
+
+def cdevobs(d):
+    t, r, adv, rsp, got, conn, scanned, reported = d
+    return "(%d, %d, %s, %s, %s, %s, %s, %s)" % (t, r, clist([cobs(x) for x in adv]),
+        "None" if rsp is None else "(Some %s)" % clist([cobs(x) for x in rsp]),
+        cbool(got), cbool(conn), cbool(scanned), cbool(reported))
+
+def cseq_case(case, res):
+    evs = [cevent(ev, st["joined"]) for ev, st in zip(case["events"], res["steps"]) if "joined" in st]
+    outs = ["ObsOk %s" % cints(st["ret"]) if "ret" in st else "ObsRaise %s" % cexn(st.get("exc", "OtherExn")) for st in res["steps"]]
+    fin = ["(%d, %s)" % (i, "None" if d is None else "(Some %s)" % cdevobs(d)) for i, d in res["final"]]
+    return "(%s, %s, %s, %s, %s, %s)" % ("None" if case["filter"] is None else "(Some %d)" % case["filter"],
+                                         cbool(case["updates"]), ctable(res["urls"]), clist(evs), clist(outs), clist(fin))
+
+
 # ---------------------------------------------------------------------------
 # Generators
 # ---------------------------------------------------------------------------
+
+GOOD_ADV = ["020106", "0201060409414243", "02010603031218", "", "020a05", "03ff3412", "0409616263020a00", "0000"]
+BAD_ADV = ["010a", "0201", "05094142", "020106ff", "0119", "02010603", "031901", "0224c3", "021c09", "0112", "09"]
+
+
+def gen_seq_systematic():
+    """Every sequence of length 1..3 over {good/bad ADV_IND, good/bad SCAN_RSP} of one address,
+    both settings of `updates`; the same shapes with ADV_NONCONN_IND and a second address mixed in."""
+    out = []
+    alpha = [("AdvInd", "020106"), ("AdvInd", "010a"), ("ScanRsp", "0409414243"), ("ScanRsp", "010a")]
+    for n in (1, 2, 3):
+        for combo in itertools.product(alpha, repeat=n):
+            for upd in (False, True):
+                out.append({"filter": None, "updates": upd, "events": [[p, 1, 0, 40, h] for p, h in combo]})
+    for bad in BAD_ADV:
+        for first in ("AdvInd", "AdvNonconn"):
+            out.append({"filter": None, "updates": False,
+                        "events": [[first, 1, 1, 40, "020106"], ["ScanRsp", 2, 0, 40, bad], ["ScanRsp", 1, 1, 40, bad],
+                                   ["ScanRsp", 1, 1, 41, "020a01"], ["ScanRsp", 1, 1, 41, bad], [first, 1, 1, 42, bad]]})
+        out.append({"filter": 1, "updates": True,
+                    "events": [["ScanRsp", 1, 0, 40, bad], ["AdvInd", 2, 0, 40, "020106"], ["AdvInd", 1, 0, 40, "020106"],
+                               ["ScanRsp", 2, 0, 40, bad], ["ScanRsp", 1, 0, 40, bad]]})
+    return out
+
+
+def gen_seq_random(rng, seeds):
+    addrs = [1, 2, 3, 4]
+    evs = []
+    for _ in range(rng.choice([2, 3, 4, 5, 6, 8])):
+        pdu = rng.choice(["AdvInd"] * 7 + ["AdvNonconn"] * 3 + ["ScanRsp"] * 8 + ["OtherPdu"] * 2)
+        a = rng.choice([1, 1, 1, 2, 2, 3, 4])
+        k = rng.random()
+        if k < 0.4:
+            d = rng.choice(GOOD_ADV) if rng.random() < 0.5 or not seeds else rng.choice(seeds).hex()
+        elif k < 0.6:
+            d = rng.choice(BAD_ADV)
+        elif k < 0.8:
+            d = rand_tlv(rng).hex()
+        else:
+            d = (mutate(rng, rng.choice(seeds)) if seeds else rand_tlv(rng)).hex()
+        d = d[:2 * rng.choice([31, 31, 31, 31, 36])]
+        evs.append([pdu, a, rng.randrange(2), rng.choice([40, 40, 41, 60]), d])
+    return {"filter": rng.choice([None, None, None, 1, 2, 5]), "updates": rng.random() < 0.5, "events": evs}
+
 
 BOUNDS = {0x01: [0, 1, 1, 2], 0x02: [0, 1, 2, 3, 4, 5, 6], 0x03: [0, 1, 2, 3, 4, 6], 0x14: [0, 2, 3, 4],
           0x06: [0, 15, 16, 17, 26], 0x07: [0, 15, 16, 17], 0x15: [0, 16, 17],
@@ -376,6 +439,12 @@ def run(ctx):
     for i in rng.sample(pool, min(len(pool), 3000 if T else 300)):
         scan_in.append([rng.randrange(3), parse_in[i].hex()])
     rs = C.run_impl("C15.py", {"scan": scan_in})["scan"]
+    # sequences of advertisements on one AdvertisingDevicesDB
+    seq_in = gen_seq_systematic()
+    n_seq_sys = len(seq_in)
+    for _ in range(4000 if T else 450):
+        seq_in.append(gen_seq_random(rng, seeds))
+    rq = C.run_impl("C15.py", {"seq": seq_in})["seq"]
     # CPython codec facts
     dec_in = [bytes([a]) for a in range(256)]
     LEADS = [0x00, 0x41, 0x7F, 0x80, 0xBF, 0xC0, 0xC1, 0xC2, 0xDF, 0xE0, 0xE1, 0xEC, 0xED, 0xEE, 0xEF, 0xF0, 0xF1, 0xF3, 0xF4, 0xF5, 0xFF]
@@ -409,10 +478,10 @@ def run(ctx):
             for k, v in p["counts"].items():
                 exh["counts"][k] = exh["counts"].get(k, 0) + v
             exh["bad"] += p["bad"]
-    n_eval = len(parse_in) + len(build_in) + len(scan_in) + len(dec_in) + len(enc_in) + 65536 + (1 << 24 if T else 0)
+    n_eval = sum(len(c["events"]) for c in seq_in) + len(parse_in) + len(build_in) + len(scan_in) + len(dec_in) + len(enc_in) + 65536 + (1 << 24 if T else 0)
     ctx.cov["evaluations"] = n_eval
-    ctx.cov["traces_validated_against_impl"] = len(parse_in) + len(build_in) + len(dec_in) + len(enc_in) + 256
-    ctx.log("impl: %d parse, %d build, %d scan, %d utf8 cases" % (len(parse_in), len(build_in), len(scan_in), len(dec_in) + len(enc_in)))
+    ctx.cov["traces_validated_against_impl"] = len(seq_in) + len(parse_in) + len(build_in) + len(dec_in) + len(enc_in) + 256
+    ctx.log("impl: %d parse, %d build, %d scan, %d scan sequences, %d utf8 cases" % (len(parse_in), len(build_in), len(scan_in), len(seq_in), len(dec_in) + len(enc_in)))
 
     # ---- oracle: the property on the real code ---------------------------------------
     shrunk = set()
@@ -439,6 +508,19 @@ def run(ctx):
         if "exc" in rs[i]:
             report("scan-" + rs[i]["exc"], "on_device_found raised %s on an advertisement" % rs[i]["exc"],
                           {"op": "scan", "pdu": k, "hex": h}, expected="no exception", observed=rs[i]["exc"])
+    seq_scapy = 0
+    for i, case in enumerate(seq_in):
+        last = rq[i]["steps"][-1] if rq[i]["steps"] else {}
+        if "scapy_exc" in last:
+            seq_scapy += 1
+        if "exc" in last:
+            cls = "seq-" + last["exc"]
+            c2 = case
+            if seen_classes.get(cls, 0) < 1:
+                c2 = shrink_seq(case, last["exc"])
+            report(cls, "on_device_found raised %s during a sequence of advertisements (step %d)" % (last["exc"], len(rq[i]["steps"])),
+                   {"op": "seq", "case": c2, "kind": "systematic" if i < n_seq_sys else "random"},
+                   expected="no exception for any sequence", observed=last["exc"])
     if exh:
         for h, nme in exh["bad"][:3]:
             ctx.violation("from_bytes raised %s (exhaustive length-3 sweep)" % nme, {"op": "parse", "hex": h, "kind": "exh3"},
@@ -493,15 +575,20 @@ def run(ctx):
     bad_w, logs_w = C.run_cases(PID, "rows", PRE, "bytes * url_table * list (obs_out (list obs)) * list N", rterms, "check_parse_row", shard=32)
     bad_p += [row_lo + 256 * k for k in bad_w]
     bad_b, logs_b = C.run_cases(PID, "build", PRE, "list call * url_table * obs_out (list obs * obs_out bytes)", bterms, "check_build", shard=330)
+    sidx = [i for i, r in enumerate(rq) if not any("scapy_exc" in st for st in r["steps"])]
+    sterms = [cseq_case(seq_in[i], rq[i]) for i in sidx]
+    bad_s, logs_s = C.run_cases(PID, "seq", PRE, "option N * bool * url_table * list event * list (obs_out (list N)) * list (N * option dev_obs)",
+                                sterms, "check_scan", shard=120)
+    bad_s = [sidx[i] for i in bad_s]
     rows = ["(%d, %s)" % (a, cints(ru["rows"][a])) for a in range(256)]
     dterms = ["(%s, %s)" % (cbytes(b), C.copt(ru["decode"][i], cints)) for i, b in enumerate(dec_in)]
     eterms = ["(%s, %s)" % (cints(c), C.copt(ru["encode"][i], lambda h: cbytes(bytes.fromhex(h)))) for i, c in enumerate(enc_in)]
     bad_r, logs_r = C.run_cases(PID, "utf8rows", PRE, "N * list N", rows, "check_utf8_row", shard=32)
     bad_d, logs_d = C.run_cases(PID, "utf8dec", PRE, "bytes * option text", dterms, "check_utf8_decode", shard=1600)
     bad_e, logs_e = C.run_cases(PID, "utf8enc", PRE, "text * option bytes", eterms, "check_utf8_encode", shard=600)
-    ctx.notes += logs_p[:2] + logs_w[:2] + logs_b[:2] + logs_r[:1] + logs_d[:1] + logs_e[:1]
-    ctx.log("correspondence: parse %d/%d bad (%d individual cases + %d rows of 256), build %d/%d bad, utf8 rows %d/256, decode %d/%d, encode %d/%d bad"
-            % (len(bad_p), len(pterms) + 256 * len(rterms), len(pterms), len(rterms), len(bad_b), len(bterms), len(bad_r), len(bad_d), len(dterms), len(bad_e), len(eterms)))
+    ctx.notes += logs_s[:2] + logs_p[:2] + logs_w[:2] + logs_b[:2] + logs_r[:1] + logs_d[:1] + logs_e[:1]
+    ctx.log("correspondence: scan sequences %d/%d bad, parse %d/%d bad (%d individual cases + %d rows of 256), build %d/%d bad, utf8 rows %d/256, decode %d/%d, encode %d/%d bad"
+            % (len(bad_s), len(sterms), len(bad_p), len(pterms) + 256 * len(rterms), len(pterms), len(rterms), len(bad_b), len(bterms), len(bad_r), len(bad_d), len(dterms), len(bad_e), len(eterms)))
 
     # ---- coverage --------------------------------------------------------------------------
     per_tag = {}
@@ -526,7 +613,7 @@ def run(ctx):
             d = ctor_kinds.setdefault(c["k"], {"n": 0})
             d["n"] += 1
     ctx.cov["distinct_nontrivial"] = C.distinct_count(
-        [["p", b.hex()] for b in parse_in if walk_has_handled(b)] + [["b", c] for c in build_in])
+        [["p", b.hex()] for b in parse_in if walk_has_handled(b)] + [["b", c] for c in build_in] + [["s", c] for c in seq_in])
     ctx.cov["rule"] = ("parse cases: corpus witnesses, ALL byte strings of length <= 2, [len,tag,x] triples, structure-aware random TLV "
                        "sequences (payload lengths on each class's boundaries, wrong length bytes, zero padding, > 31 bytes), mutations of the "
                        "implementation's own serialisations, and those serialisations; build cases: constructor calls over all 19 constructors "
@@ -541,7 +628,14 @@ def run(ctx):
         "build_ctor_errors": sum(1 for r in rb if "ctor_exc" in r), "build_overflow": sum(1 for r in rb if r.get("to_bytes_exc") == "AdvDataFieldListOverflow"),
         "round_trips_checked": n_rt, "round_trips_equal": n_rt_ok,
         "urlparse_calls_recorded": sum(len(r["urls"]) for r in rp) + sum(len(r["urls"]) for r in rb),
-        "scan_cases": len(scan_in), "utf8_decode_cases": len(dec_in) + 65536, "utf8_encode_cases": len(enc_in),
+        "scan_cases": len(scan_in),
+        "scan_sequences": len(seq_in), "scan_sequences_systematic": n_seq_sys, "scan_events": sum(len(c["events"]) for c in seq_in),
+        "scan_events_by_pdu": {p: sum(1 for c in seq_in for e in c["events"] if e[0] == p) for p in ("AdvInd", "AdvNonconn", "ScanRsp", "OtherPdu")},
+        "scan_final_phases": {"waiting": sum(1 for r in rq for _i, d in r["final"] if d is not None and not d[4]),
+                              "complete": sum(1 for r in rq for _i, d in r["final"] if d is not None and d[4]),
+                              "unknown": sum(1 for r in rq for _i, d in r["final"] if d is None)},
+        "scan_events_scapy_rejoin_differs": sum(1 for c, r in zip(seq_in, rq) for e, st in zip(c["events"], r["steps"]) if st.get("joined") != e[4]),
+        "scan_sequences_scapy_raised": seq_scapy, "utf8_decode_cases": len(dec_in) + 65536, "utf8_encode_cases": len(enc_in),
         "utf8_decode_valid": sum(1 for d in ru["decode"] if d is not None),
         "exhaustive_len3_oracle": exh["counts"] if exh else "thorough tier only",
     }
@@ -551,18 +645,23 @@ def run(ctx):
     tl = [i for i, m in enumerate(parse_meta) if m["kind"] == "tlv" and "out" in rp[i] and rp[i]["out"]]
     ctx.cov["samples"] = [sample(0), sample(tl[0] if tl else 1), sample(len(parse_in) - 1),
                           {"build": build_in[-1], "impl": {k: v for k, v in rb[-1].items() if k not in ("urls", "reparse")}}]
+    ctx.cov["samples"].append({"seq": seq_in[-1], "impl": {k: v for k, v in rq[-1].items() if k != "urls"}})
     ctx.cov["source_ties"] = [C.source_tie("whad/ble/profile/advdata.py", 24, 1185),
                               C.source_tie("whad/ble/profile/advdata.py", 1187, 1340),
                               C.source_tie("whad/ble/profile/attribute.py", 513, 600),
                               C.source_tie("whad/hub/ble/bdaddr.py", 1, 106),
-                              C.source_tie("whad/ble/scanning.py", 308, 401)]
-    ctx.cov["correspondence"] = {"parse_cases": len(pterms) + 256 * len(rterms), "parse_rows_of_256": len(rterms), "parse_bad": len(bad_p), "build_cases": len(bterms), "build_bad": len(bad_b),
+                              C.source_tie("whad/ble/scanning.py", 19, 401)]
+    ctx.cov["correspondence"] = {"scan_sequences": len(sterms), "scan_sequences_bad": len(bad_s), "parse_cases": len(pterms) + 256 * len(rterms), "parse_rows_of_256": len(rterms), "parse_bad": len(bad_p), "build_cases": len(bterms), "build_bad": len(bad_b),
                                  "utf8_rows_bad": len(bad_r), "utf8_decode_bad": len(bad_d), "utf8_encode_bad": len(bad_e)}
 
     # ---- verdict ------------------------------------------------------------------------------
-    if (bad_p or bad_b or bad_r or bad_d or bad_e or not proofs_ok) and not ctx.violations:
+    if (bad_s or bad_p or bad_b or bad_r or bad_d or bad_e or not proofs_ok) and not ctx.violations:
         first, what = None, None
-        if bad_p:
+        if bad_s:
+            i = bad_s[0]
+            first = {"op": "seq", "case": seq_in[i], "impl": {k: v for k, v in rq[i].items() if k != "urls"}}
+            what = "correspondence C15.Model.scan vs AdvertisingDevicesDB.on_device_found (%d of %d sequences disagree)" % (len(bad_s), len(sterms))
+        elif bad_p:
             i = bad_p[0]
             first = {"op": "parse", "hex": parse_in[i].hex(), "impl": rp[i]}
             what = "correspondence C15.Model.from_bytes vs AdvDataFieldList.from_bytes (%d individual cases / rows of %d disagree)" % (len(bad_p), len(pterms) + len(rterms))
@@ -577,7 +676,7 @@ def run(ctx):
             what = "Lib/Utf8 vs CPython's utf-8 codec"
         else:
             what = "proof obligations of theories/C15: " + detail.splitlines()[0][:200]
-        ctx.broken_obligation(what, detail if not proofs_ok else "\n".join(logs_p + logs_w + logs_b + logs_r + logs_d + logs_e), first)
+        ctx.broken_obligation(what, detail if not proofs_ok else "\n".join(logs_s + logs_p + logs_w + logs_b + logs_r + logs_d + logs_e), first)
 
 
 def shrink_parse(b, cls):
@@ -596,6 +695,23 @@ def shrink_parse(b, cls):
     return cur
 
 
+def shrink_seq(case, cls):
+    """Drop events while some call still raises the same class (one driver call per round)."""
+    cur = case
+    for _ in range(10):
+        evs = cur["events"]
+        cands = [dict(cur, events=evs[:i] + evs[i + 1:]) for i in range(len(evs))]
+        cands = [c for c in cands if c["events"]]
+        if not cands:
+            break
+        res = C.run_impl("C15.py", {"seq": cands})["seq"]
+        nxt = [c for c, r in zip(cands, res) if r["steps"] and r["steps"][-1].get("exc") == cls]
+        if not nxt:
+            break
+        cur = nxt[0]
+    return cur
+
+
 def replay(payload):
     case = payload.get("case") or payload.get("first_disagreeing_case") or {}
     print(json.dumps(case)[:3000])
@@ -604,6 +720,12 @@ def replay(payload):
         print("AdvDataFieldList.from_bytes now gives:", {k: v for k, v in r.items() if k != "urls"})
         bad = ("exc" in r and r["exc"] not in ("AdvDataError", "AdvDataFieldListOverflow"))
         print("property holds on this case" if not bad else "property STILL violated: %s escapes" % r["exc"])
+        return 1 if bad else 0
+    if case.get("op") == "seq":
+        r = C.run_impl("C15.py", {"seq": [case["case"]]})["seq"][0]
+        print("on_device_found over the sequence now gives:", [{k: v for k, v in st.items() if k in ("ret", "exc")} for st in r["steps"]])
+        bad = any("exc" in st for st in r["steps"])
+        print("property STILL violated" if bad else "property holds on this sequence")
         return 1 if bad else 0
     if case.get("op") == "scan":
         r = C.run_impl("C15.py", {"scan": [[case["pdu"], case["hex"]]]})["scan"][0]
